@@ -1090,6 +1090,8 @@ func (g *gen) opJustify(kind string, pChanged int) {
 		}
 	}
 	g.emit("justify", fmt.Sprintf("justify %s %d %s %d %s %s", g.rs(trigger), jE, g.rs(jR), fE, g.rs(fR), tok))
+	// the live node set right after every update: what was (not) pruned shows at once
+	g.emit("nodes", "nodes")
 	if valid && (jE > m.jE || fE > m.fE) {
 		m.jE, m.jR, m.fE, m.fR, m.bals = jE, jR, fE, fR, nb
 		if finalizing {
@@ -1677,6 +1679,108 @@ func (g *gen) malformed() {
 	g.flush()
 }
 
+// seqViability: viability changes together with weight changes. A small tree whose nodes carry mixed
+// justified epochs (all of them viable while the store is at the genesis epoch), votes spread over the
+// forks, then justified-only updates (finalized unchanged, so nothing is pruned) to an epoch that makes only
+// part of the tree viable, each with a re-drawn balance vector so that the weight order of siblings flips in
+// the same pass that changes viability. Head from the pin and from every block node after each step.
+func (g *gen) seqViability() {
+	rng := g.rng
+	g.begin("viability")
+	spe := []int{2, 4, 4, 8}[rng.Intn(4)]
+	roots := append([]string(nil), pool...)
+	rng.Shuffle(len(roots), func(i, j int) { roots[i], roots[j] = roots[j], roots[i] })
+	nv := 3 + rng.Intn(5)
+	bals := make([]int, nv)
+	for i := range bals {
+		bals[i] = balVals[rng.Intn(len(balVals))]
+	}
+	anchor := roots[0]
+	g.emit("init", fmt.Sprintf("init %d %s 0 00 0 %s 0 %s nil %s", spe, anchor, anchor, anchor, balStr(bals)))
+	g.st.Add("init", "viability")
+	type vb struct {
+		root string
+		slot int
+	}
+	blocks := []vb{{anchor, 0}}
+	nb := 3 + rng.Intn(6)
+	maxE := 1 + rng.Intn(2)
+	for i := 1; i <= nb && i < len(roots); i++ {
+		p := blocks[rng.Intn(len(blocks))]
+		if rng.Intn(3) == 0 {
+			p = blocks[len(blocks)-1]
+		}
+		slot := p.slot + 1 + rng.Intn(3)
+		jE := rng.Intn(maxE + 1)
+		fE := 0
+		if rng.Intn(8) == 0 {
+			fE = rng.Intn(2)
+		}
+		g.emit("block", fmt.Sprintf("block %s %s %d %d %d", p.root, roots[i], slot, jE, fE))
+		g.st.Add("block", "viability")
+		g.st.Add("node-epochs", fmt.Sprintf("viab-j%d-f%d", jE, fE))
+		blocks = append(blocks, vb{roots[i], slot})
+		if rng.Intn(4) == 0 {
+			g.emit("slot", fmt.Sprintf("slot %s %d %d %d", roots[i], slot+1+rng.Intn(2), rng.Intn(maxE+1), 0))
+		}
+	}
+	lastE := make([]int, nv)
+	for i := range lastE {
+		lastE[i] = -1
+	}
+	votes := func(n int) {
+		for i := 0; i < n; i++ {
+			v := rng.Intn(nv)
+			b := blocks[rng.Intn(len(blocks))]
+			g.emit("att", fmt.Sprintf("att %d %s %d", v, b.root, b.slot))
+			if b.slot/spe > lastE[v] {
+				lastE[v] = b.slot / spe
+				g.st.Add("vote", "viability-new")
+			} else {
+				g.st.Add("vote", "viability-stale")
+			}
+		}
+	}
+	sweep := func() {
+		g.emit("head", "head")
+		for _, b := range blocks {
+			if rng.Intn(2) == 0 {
+				g.emit("findhead", fmt.Sprintf("findhead %s %d", b.root, b.slot))
+			}
+		}
+	}
+	votes(nv + rng.Intn(4))
+	sweep()
+	jE := 0
+	for round, n := 0, 1+rng.Intn(3); round < n; round++ {
+		jE += 1 + rng.Intn(2)/1*rng.Intn(2)
+		nbals := make([]int, nv)
+		for i := range nbals {
+			nbals[i] = balVals[rng.Intn(len(balVals))]
+		}
+		if rng.Intn(3) == 0 {
+			rng.Shuffle(len(nbals), func(i, j int) { nbals[i], nbals[j] = nbals[j], nbals[i] })
+		}
+		// justified root: the anchor (always inside the finalized subtree); trigger = pin root
+		g.emit("justify", fmt.Sprintf("justify %s %d %s 0 %s %s", anchor, jE, anchor, anchor, balStr(nbals)))
+		g.st.Add("justify", "viability/justified-only-rebalance")
+		g.emit("nodes", "nodes")
+		sweep()
+		if rng.Intn(2) == 0 {
+			votes(1 + rng.Intn(3))
+			sweep()
+		}
+		if rng.Intn(3) == 0 && len(blocks) < len(roots) {
+			p := blocks[rng.Intn(len(blocks))]
+			r := roots[len(blocks)]
+			g.emit("block", fmt.Sprintf("block %s %s %d %d %d", p.root, r, p.slot+1+rng.Intn(2), jE, 0))
+			blocks = append(blocks, vb{r, p.slot + 1})
+			sweep()
+		}
+	}
+	g.flush()
+}
+
 // ---- entry point ----
 
 func generate(mode string, o hreg.Opts, w *bufio.Writer) error {
@@ -1691,11 +1795,19 @@ func generate(mode string, o hreg.Opts, w *bufio.Writer) error {
 		}
 		n, maxLines := o.Pick(3000, 60000), o.Pick(40, 120)
 		for i := 0; i < n; i++ {
-			g.seqFc09(maxLines)
+			if i%5 == 4 {
+				g.seqViability()
+			} else {
+				g.seqFc09(maxLines)
+			}
 		}
 	case "fc10":
 		for i, n := 0, o.Pick(1500, 30000); i < n; i++ {
-			g.seqFc10()
+			if i%10 == 9 {
+				g.seqViability()
+			} else {
+				g.seqFc10()
+			}
 		}
 	case "fc11":
 		for i, n := 0, o.Pick(1500, 30000); i < n; i++ {
